@@ -1311,6 +1311,15 @@ def run(tier):
     chk.guard(rule_r7, chk, prog, reg)
     chk.guard(rule_r8, chk, prog, reg)
     chk.guard(rule_r9, chk, prog, reg)
+    from .. import genreuse
+    chk.guard(genreuse.rule, chk, prog, 'C14.R10',
+              'the names / instances of the enabled mutators are not held '
+              'in a one-shot iterator that is traversed twice on one path',
+              {'mutators': None, 'options': None,
+               'strategy_ddmin': {'ddmin_passes'},
+               'strategy_hierarchical': {'get_passes', 'get_pass'}},
+              'the pass that is built from it afterwards is empty: enabled '
+              'mutators are never scheduled')
     extra = None
     if tier == 'thorough':
         from .. import selftest
